@@ -188,6 +188,10 @@ package router
 //@   ensures [C19:single-flight] ok == !old(has(c.queue, key))
 //@   ensures [C19:reserved] has(c.queue, key)
 //@   ensures [C19:others-kept] forallkey(k, c.queue, k != key ==> has(c.queue, k) == old(has(c.queue, k)))
+//@   ghost nUnl int = 0
+//@   oncall Unlock?: nUnl = nUnl + 1
+//@   oncall RUnlock?: nUnl = nUnl + 1
+//@   ensures [C19:lock-released-on-every-path] nUnl == nAcq
 
 //@ func (c *prefetchCtl) done(key uint64)
 //@   props C19
@@ -199,6 +203,10 @@ package router
 //@   modifies obj(c.queue)
 //@   ensures [C19:released] !has(c.queue, key)
 //@   ensures [C19:others-kept] forallkey(k, c.queue, k != key ==> has(c.queue, k) == old(has(c.queue, k)))
+//@   ghost nUnl int = 0
+//@   oncall Unlock?: nUnl = nUnl + 1
+//@   oncall RUnlock?: nUnl = nUnl + 1
+//@   ensures [C19:lock-released-on-every-path] nUnl == nAcq
 
 // keyForPrefetch: the single-flight key is made of exactly the four components of a cache key - the question's
 // name, class and type and the group of THIS client - and of nothing else.
@@ -1725,6 +1733,13 @@ package router
 //@   ghost nRelBR int = 0
 //@   oncall ReleaseBR1K: nRelBR = nRelBR + 1
 //@   callsite ReadMsgFromTCP: [C13,C20:reader-still-owned-while-frames-are-read] nRelBR == 0
+// the idle deadline is pushed forward before every read, whatever the reader has buffered (a client whose segments
+// end inside a frame is as active as one whose segments end on a frame boundary)
+//@   ghost gDL bool = false
+//@   oncall SetReadDeadline: gDL = true
+//@   aftercall ReadMsgFromTCP: gDL = false
+//@   callsite ReadMsgFromTCP: [C13:idle-deadline-refreshed-before-every-read] gDL
+//@   callsite SetReadDeadline: [C13:on-this-connection] arg0 == c
 //@   callsite ReleaseBR1K: [C20:gives-back-its-own-reader-once] arg0 == gBR && nRelBR == 0
 //@   loop 1:
 //@     modifies *
